@@ -1,6 +1,7 @@
 import Enc.Driver.Ascii
 import Enc.Driver.Proto
 import Enc.Driver.ProtoRewrite
+import Enc.Driver.ProtoTemplate
 import Enc.Driver.Iso
 import Enc.Driver.Thrift
 import Enc.Driver.Json
@@ -21,6 +22,7 @@ open Enc
 def dispatch (op : String) (args : List String) : Option (String × String × String) :=
   if op.startsWith "ascii." || op.startsWith "asmascii." then Driver.Ascii.handle op args
   else if op == "proto.msgrewrite" || op == "proto.tmplrewrite" then Driver.ProtoRewrite.handle op args
+  else if op == "proto.typeof" || op == "proto.tmpltree" || op == "proto.tmplvalue" then Driver.ProtoTemplate.handle op args
   else if op.startsWith "proto." then Driver.Proto.handle op args
   else if op.startsWith "iso." then Driver.Iso.handle op args
   else if op.startsWith "thrift." then Driver.Thrift.handle op args
